@@ -308,6 +308,21 @@ def run(ctx):
                      xdtype=str(x.dtype), aslist=(j % 7 == 0 and n < 2000))
             ctx.count(1)
             ctx.nt(digest(("rand", ctx.seed, ctx.shard, j, qi)))
+        if j % 5 == 0:
+            # history: ONE precomputed ecdf(x) handed to a series of queries of both kinds (what a caller scanning thresholds does); every
+            # answer is judged by the contracts, and the caller's arrays must come back unchanged
+            stats_ = _stats()
+            with monitor.suspended():
+                shared = stats_.ecdf(numpy.asarray(x))
+            snap = tuple(numpy.array(a, copy=True) for a in shared)
+            for q in qs:
+                qv = q.item() if hasattr(q, "item") else q
+                ctx.call(stats_.greater_equal_ecdf, x, qv, cdf=shared)
+                ctx.call(stats_.less_equal_ecdf, x, qv, cdf=shared)
+            ctx.mon("history:shared-precomputed-cdf", 1)
+            if not all(numpy.array_equal(a, b) for a, b in zip(shared, snap)):
+                ctx.violate("a query changed the caller's precomputed cdf arrays", {"exec": "query", "args": {"fn": "ge", "x": numpy.asarray(x)[:2000], "v": float(qs[0]), "precomputed": True, "xdtype": str(x.dtype)}},
+                            observed=numpy.asarray(shared[1])[:6], expected=snap[1][:6], tags={"fn": "shared-cdf", "clause": "argument-mutated"})
         if j % 10 == 0:
             sample_identities(ctx, x, [float(q) for q in qs], "rand")
             ex_binned(ctx, x, numpy.linspace(float(u[0]) - 1, float(u[-1]) + 1, 25))
